@@ -2,7 +2,7 @@
    theorem (C17): sorted blocks within the field widths, unique label names and relocation addresses, a valid line map. -/
 import Lc3V.Lemmas.BinRoundtrip2
 import Lc3V.Lemmas.LineInj
-import Lc3V.Props.C23
+import Lc3V.Lemmas.C23Core
 import Lc3V.Props.C01
 set_option linter.unusedSimpArgs false
 set_option linter.unusedVariables false
